@@ -41,7 +41,7 @@ theorem find_replaceFile_ne (p q : String) (c : Content) (t : Nat) (h : q ≠ p)
     by_cases hf : (f.path == p) = true
     · have hfp : f.path = p := by simpa using hf
       have h1 : (p == q) = false := by simpa using fun e => h e.symm
-      simp [hf, List.find?, h1, hfp]
+      simp [List.find?, h1, hfp]
     · simp only [hf, Bool.false_eq_true, if_false, List.find?]
       rw [find_replaceFile_ne p q c t h r]
 
@@ -144,7 +144,7 @@ theorem pdfDrain_spec (sch : Sched) : ∀ (pool : List Proc) (fs : FS),
     · rename_i hrc
       simpa [hrc] using pdfDrain_spec sch ps fs
     · rename_i hrc
-      simp only [hrc, Bool.false_eq_true, if_false, prodsOf_cons_prod, List.cons_append, List.nil_append]
+      simp only [prodsOf_cons_prod, List.cons_append, List.nil_append]
       rw [pdfDrain_spec sch ps _]
 
 /-- a key that is not in the pool is appended -/
@@ -177,7 +177,7 @@ theorem pdfSpec_congr (ow : Bool) (rc : Nat → Int) (fs fs' : FS) : ∀ (as : L
   | [], _, _ => rfl
   | a :: as, n, h => by
     have ha : pdfDecide ow fs a = pdfDecide ow fs' a :=
-      pdfDecide_congr ow fs fs' a (fun t ht => h t (by simp [List.filterMap_cons, ht]))
+      pdfDecide_congr ow fs fs' a (fun t ht => h t (by simp [ht]))
     have hrest : ∀ t ∈ as.filterMap texOf, Agree fs fs' t ∧ Agree fs fs' (pdfName t) := by
       intro t ht
       apply h t
@@ -220,11 +220,11 @@ theorem pdfDecide_launch (ow : Bool) (fs : FS) (v : Item) (key tex : String) (ct
   all_goals (split at h <;> contradiction)
 
 theorem selTex_cons_unsel (v : Item) (vs : List Item) (h : pdfSel v = false) : selTex (v :: vs) = selTex vs := by
-  simp [selTex, List.filter_cons, h]
+  simp [selTex, h]
 
 theorem selTex_cons_sel (v : Item) (vs : List Item) (t : String) (h : pdfSel v = true) (ht : texOf v = some t) :
     selTex (v :: vs) = t :: selTex vs := by
-  simp [selTex, List.filter_cons, h, List.filterMap_cons, ht]
+  simp [selTex, h, ht]
 
 theorem KeysOK.sublist {pk pk' : List String} {xs : List Item} (h : KeysOK pk xs) (hs : pk'.Sublist pk) :
     KeysOK pk' xs where
@@ -398,5 +398,349 @@ theorem pdf_loop_spec (ow : Bool) (sch : Sched) : ∀ (xs : List Item) (st : Pdf
             _ ~ prodsOf popped ++ ((pending sch.rc pool1 ++ _) ++ _) := List.Perm.append_left _ ih
             _ = (prodsOf popped ++ pending sch.rc pool1) ++ (_ ++ _) := by simp [List.append_assoc]
             _ ~ pending sch.rc st.pool ++ (_ ++ _) := List.Perm.append_right _ hpop
+
+/-! ## helper lemmas of `Props/C10.lean` (moved here to keep that file readable) -/
+
+section
+variable {σ α β : Type}
+
+theorem loop_blocks_length_le (f : σ → α → Step σ β) : ∀ (xs : List α) (s : σ),
+    (loop f s xs).blocks.length ≤ xs.length
+  | [], s => by simp [loop]
+  | v :: vs, s => by
+    rcases h : f s v with ⟨out, s', _ | e⟩
+    · rw [loop_cons_ok f s s' v vs out h]; simpa using loop_blocks_length_le f vs s'
+    · rw [loop_cons_err f s s' v vs out e h]; simp
+
+theorem loop_blocks_length_of_ok (f : σ → α → Step σ β) : ∀ (xs : List α) (s : σ),
+    (loop f s xs).err = none → (loop f s xs).blocks.length = xs.length
+  | [], s, _ => by simp [loop]
+  | v :: vs, s, he => by
+    rcases h : f s v with ⟨out, s', _ | e⟩
+    · rw [loop_cons_ok f s s' v vs out h] at he ⊢
+      simpa using loop_blocks_length_of_ok f vs s' he
+    · rw [loop_cons_err f s s' v vs out e h] at he; simp at he
+
+theorem loop_blocks_ne_nil_of_err (f : σ → α → Step σ β) : ∀ (xs : List α) (s : σ),
+    (loop f s xs).err.isSome = true → (loop f s xs).blocks ≠ []
+  | [], s, he => by simp [loop] at he
+  | v :: vs, s, _ => by
+    rcases h : f s v with ⟨out, s', _ | e⟩
+    · rw [loop_cons_ok f s s' v vs out h]; simp
+    · rw [loop_cons_err f s s' v vs out e h]; simp
+
+theorem pick_true_mergeBlocks : ∀ (p : List Bool) (blocks : List (List α)) (B : List α) (failed : Bool),
+    p.count false ≤ B.length →
+    (failed = true → blocks ≠ [] ∧ blocks.length ≤ p.count true) →
+    (failed = false → blocks.length = p.count true) →
+    pick true p (mergeBlocks failed p blocks B) = blocks
+  | [], blocks, B, failed, _, h1, h2 => by
+    cases failed
+    · have := h2 rfl
+      simp at this
+      simp [this, pick]
+    · have := (h1 rfl).2
+      simp at this
+      exact absurd this (h1 rfl).1
+  | true :: p, [], B, failed, _, h1, h2 => by
+    cases failed
+    · have := h2 rfl
+      simp at this
+    · exact absurd rfl (h1 rfl).1
+  | true :: p, blk :: as, B, failed, hB, h1, h2 => by
+    by_cases hstop : (failed && as.isEmpty) = true
+    · simp only [Bool.and_eq_true, List.isEmpty_iff] at hstop
+      obtain ⟨_, has⟩ := hstop
+      subst has
+      simp [mergeBlocks, pick, *]
+    · have ih := pick_true_mergeBlocks p as B failed (by simpa using hB)
+        (fun hf => by
+          have := h1 hf
+          constructor
+          · intro has; subst has; simp [hf] at hstop
+          · simpa using this.2)
+        (fun hf => by simpa using h2 hf)
+      simp only [Bool.not_eq_true] at hstop
+      simp [mergeBlocks, hstop, pick, ih]
+  | false :: p, blocks, [], failed, hB, _, _ => by simp at hB
+  | false :: p, blocks, b :: bs, failed, hB, h1, h2 => by
+    have ih := pick_true_mergeBlocks p blocks bs failed (by simpa using hB)
+      (fun hf => by simpa using h1 hf) (fun hf => by simpa using h2 hf)
+    have : mergeBlocks failed (false :: p) blocks (b :: bs) = [b] :: mergeBlocks failed p blocks bs := by
+      cases blocks <;> rfl
+    simp [this, pick, ih]
+
+theorem pick_false_mergeBlocks_of_ok : ∀ (p : List Bool) (blocks : List (List α)) (B : List α),
+    p.count false = B.length → blocks.length = p.count true →
+    pick false p (mergeBlocks false p blocks B) = B.map (fun b => [b])
+  | [], blocks, B, hB, _ => by
+    have : B = [] := by simpa using hB.symm
+    simp [this, pick]
+  | true :: p, [], B, _, h => by simp at h
+  | true :: p, blk :: as, B, hB, h => by
+    have ih := pick_false_mergeBlocks_of_ok p as B (by simpa using hB) (by simpa using h)
+    simp [mergeBlocks, pick, ih]
+  | false :: p, blocks, [], hB, _ => by simp at hB
+  | false :: p, blocks, b :: bs, hB, h => by
+    have ih := pick_false_mergeBlocks_of_ok p blocks bs (by simpa using hB) (by simpa using h)
+    have : mergeBlocks false (false :: p) blocks (b :: bs) = [b] :: mergeBlocks false p blocks bs := by
+      cases blocks <;> rfl
+    simp [this, pick, ih]
+
+theorem pick_false_mergeBlocks_prefix : ∀ (p : List Bool) (blocks : List (List α)) (B : List α) (failed : Bool),
+    ∃ k, pick false p (mergeBlocks failed p blocks B) = (B.take k).map (fun b => [b])
+  | [], blocks, B, failed => ⟨0, by simp [pick]⟩
+  | true :: p, [], B, failed => ⟨0, by simp [mergeBlocks, pick]⟩
+  | true :: p, blk :: as, B, failed => by
+    by_cases hstop : (failed && as.isEmpty) = true
+    · exact ⟨0, by simp [mergeBlocks, hstop, pick]⟩
+    · obtain ⟨k, hk⟩ := pick_false_mergeBlocks_prefix p as B failed
+      simp only [Bool.not_eq_true] at hstop
+      exact ⟨k, by simp [mergeBlocks, hstop, pick, hk]⟩
+  | false :: p, blocks, [], failed => ⟨0, by cases blocks <;> simp [mergeBlocks, pick]⟩
+  | false :: p, blocks, b :: bs, failed => by
+    obtain ⟨k, hk⟩ := pick_false_mergeBlocks_prefix p blocks bs failed
+    have : mergeBlocks failed (false :: p) blocks (b :: bs) = [b] :: mergeBlocks failed p blocks bs := by
+      cases blocks <;> rfl
+    exact ⟨k + 1, by simp [this, pick, hk]⟩
+
+theorem ctxOr_d (v : Item) (k : Nat) : (v.ctxOr k).d = v.dict := by
+  unfold Item.ctxOr Item.dict; cases v.ctx <;> rfl
+
+/-- a loop whose body never changes the state leaves it as it was -/
+theorem loop_state_const (f : σ → α → Step σ β) (h : ∀ s v, (f s v).st = s) :
+    ∀ (xs : List α) (s : σ), (loop f s xs).st = s
+  | [], s => rfl
+  | v :: vs, s => by
+    have hv := h s v
+    rcases hf : f s v with ⟨out, s', _ | e⟩
+    · rw [hf] at hv; simp only at hv; subst hv
+      simp only [loop, hf]
+      exact loop_state_const f h vs s'
+    · rw [hf] at hv; simp only at hv; subst hv
+      simp [loop, hf]
+
+theorem mapBinsRounds_st (v : Item) (h : HistD) (d : Dict) (res : List CellRes) (s : σ) :
+    ∀ (fuel k : Nat) (acc : List Item), (mapBinsRounds v h d res s fuel k acc).st = s
+  | 0, _, _ => rfl
+  | fuel + 1, k, acc => by
+    unfold mapBinsRounds
+    split
+    · rfl
+    · rfl
+    · exact mapBinsRounds_st v h d res s fuel (k + 1) _
+
+theorem Tok.made_ne (t : Tok) (k : Nat) : Tok.made t k ≠ t := by
+  intro h
+  have := congrArg sizeOf h
+  simp at this
+  omega
+
+/-- every yielded value is a new object made from `v` -/
+def AllFresh (v : Item) (out : List Item) : Prop := ∀ y ∈ out, ∃ k, y.tok = Tok.made v.tok k
+
+theorem AllFresh.ne {v : Item} {out : List Item} (h : AllFresh v out) : ∀ y ∈ out, y.tok ≠ v.tok := by
+  intro y hy
+  obtain ⟨k, hk⟩ := h y hy
+  rw [hk]; exact Tok.made_ne _ _
+
+theorem allFresh_mk (v : Item) (k : Nat) (d : Data) (c : Ctx) : AllFresh v [mk v k d c] := by
+  intro y hy
+  simp only [List.mem_singleton] at hy
+  exact ⟨2 * k, by rw [hy]; rfl⟩
+
+theorem allFresh_nil (v : Item) : AllFresh v [] := by
+  intro y hy; simp at hy
+
+theorem allFresh_ite (v : Item) (c : Prop) [Decidable c] (a b : Step σ Item) (ha : AllFresh v a.out)
+    (hb : AllFresh v b.out) : AllFresh v (if c then a else b).out := by
+  split <;> assumption
+
+theorem toCSV_selected_fresh (s : σ) (v : Item) (h : toCSVSel v = true) : AllFresh v (toCSVStep s v).out := by
+  unfold toCSVSel at h
+  simp only [Bool.and_eq_true] at h
+  obtain ⟨h1, h2⟩ := h
+  simp only [toCSVStep, ctxOr_d, h1, Bool.not_true, Bool.false_eq_true, if_false]
+  revert h2
+  generalize v.data = data
+  intro h2
+  cases data with
+  | hist hh =>
+    simp only [Bool.or_eq_true] at h2
+    by_cases h3 : (hh.dim == 1) = true
+    · simp only [h3, if_true]
+      exact allFresh_ite _ _ _ _ (allFresh_mk _ _ _ _) (allFresh_nil _)
+    · have h4 : (hh.dim == 2) = true := by
+        rcases h2 with h2 | h2
+        · exact absurd h2 h3
+        · exact h2
+      simp only [h3, h4, Bool.false_eq_true, if_true, if_false]
+      exact allFresh_ite _ _ _ _ (allFresh_mk _ _ _ _) (allFresh_nil _)
+  | rows id k upd =>
+    simp only [Data.rowsInfo]
+    split
+    · exact allFresh_nil _
+    · exact allFresh_mk _ _ _ _
+  | graph src =>
+    simp only [Data.rowsInfo]
+    exact allFresh_mk _ _ _ _
+  | _ => simp [Data.hasRows, Data.rowsInfo] at h2
+
+theorem render_selected_fresh (cfg : RenderCfg) (s : σ) (v : Item) (h : renderSel cfg v = true) :
+    AllFresh v (renderStep cfg s v).out := by
+  simp only [renderStep, h, if_true]
+  repeat' split
+  all_goals first | exact allFresh_nil _ | exact allFresh_mk _ _ _ _
+
+theorem png_selected_fresh (cfg : PngCfg) (fs : FS) (v : Item) (h : pngSel v = true) :
+    AllFresh v (pngStep cfg fs v).out := by
+  simp only [pngStep, h, if_true]
+  repeat' split
+  all_goals first | exact allFresh_nil _ | exact allFresh_mk _ _ _ _
+
+theorem histToGraph_selected_fresh (s : σ) (v : Item) (h : histToGraphSel v = true) :
+    AllFresh v (histToGraphStep s v).out := by
+  unfold histToGraphSel at h
+  simp only [Bool.and_eq_true] at h
+  simp only [histToGraphStep, ctxOr_d, h.1, h.2, Bool.not_true, Bool.or_self, Bool.false_eq_true, if_false]
+  exact allFresh_mk _ _ _ _
+
+theorem iterateBins_selected_fresh (sb : BinKind → Bool) (s : σ) (v : Item) (h : iterateBinsSel sb v = true) :
+    AllFresh v (iterateBinsStep sb s v).out := by
+  unfold iterateBinsSel at h
+  unfold iterateBinsStep
+  revert h
+  generalize v.data = data
+  intro h
+  cases data <;> simp only at h <;> try contradiction
+  simp only [h, Bool.not_true, Bool.false_eq_true, if_false]
+  split
+  · exact allFresh_nil _
+  · intro y hy
+    simp only [List.mem_map, List.mem_range] at hy
+    obtain ⟨i, _, rfl⟩ := hy
+    exact ⟨2 * i, rfl⟩
+
+theorem mapBinsRounds_fresh (v : Item) (h : HistD) (d : Dict) (res : List CellRes) (s : σ) :
+    ∀ (fuel k : Nat) (acc : List Item), AllFresh v acc → AllFresh v (mapBinsRounds v h d res s fuel k acc).out
+  | 0, _, acc, ha => by
+    intro y hy
+    simp only [mapBinsRounds, List.mem_reverse] at hy
+    exact ha y hy
+  | fuel + 1, k, acc, ha => by
+    unfold mapBinsRounds
+    split
+    · intro y hy
+      simp only [List.mem_reverse] at hy
+      exact ha y hy
+    · intro y hy
+      simp only [List.mem_reverse] at hy
+      exact ha y hy
+    · apply mapBinsRounds_fresh v h d res s fuel (k + 1)
+      intro y hy
+      simp only [List.mem_cons] at hy
+      rcases hy with rfl | hy
+      · exact ⟨2 * k, rfl⟩
+      · exact ha y hy
+
+theorem mapBins_selected_fresh (sb : BinKind → Bool) (inner : Item → CellRes) (s : σ) (v : Item)
+    (h : mapBinsSel sb v = true) : AllFresh v (mapBinsStep sb inner s v).out := by
+  unfold mapBinsSel at h
+  unfold mapBinsStep
+  revert h
+  generalize v.data = data
+  intro h
+  cases data <;> simp only at h <;> try contradiction
+  simp only [h, Bool.not_true, Bool.false_eq_true, if_false]
+  exact mapBinsRounds_fresh _ _ _ _ _ _ _ _ (allFresh_nil _)
+
+theorem mapGroup_selected_fresh (inner : σ → List Item → Step σ Item) (s : σ) (v : Item)
+    (h : mapGroupSel v = true) : AllFresh v (mapGroupStep inner s v).out := by
+  unfold mapGroupSel hasKey Item.dict at h
+  unfold mapGroupStep
+  cases hc : v.ctx with
+  | none => simp [hc, lookup] at h
+  | some c =>
+    simp only [hc] at h ⊢
+    cases hg : lookup c.d "group" with
+    | none => simp [hg] at h
+    | some g =>
+      simp only [hg, Option.isSome_some, Bool.true_and] at h
+      simp only [h, Bool.not_true, Bool.false_eq_true, if_false]
+      repeat' split
+      all_goals first
+        | exact allFresh_nil _
+        | (intro y hy
+           simp only [List.mem_map, List.mem_range] at hy
+           obtain ⟨i, _, rfl⟩ := hy
+           exact ⟨2 * i, rfl⟩)
+
+theorem passedOf_append (a b : List Emit) : passedOf (a ++ b) = passedOf a ++ passedOf b := by
+  simp [passedOf, List.filterMap_append]
+
+theorem passedOf_nil : passedOf [] = [] := rfl
+
+theorem passedOf_pass (v : Item) : passedOf [.pass v] = [v] := rfl
+
+theorem passedOf_prod (v : Item) : passedOf [.prod v] = [] := rfl
+
+theorem passedOf_cons_prod (v : Item) (es : List Emit) : passedOf (.prod v :: es) = passedOf es := rfl
+
+theorem popReturned_prod (sch : Sched) (it : Nat) : ∀ (pool : List Proc) (fs : FS),
+    passedOf (popReturned sch it fs pool).2.1 = []
+  | [], fs => rfl
+  | p :: ps, fs => by
+    unfold popReturned
+    split
+    · split
+      · exact popReturned_prod sch it ps fs
+      · have := popReturned_prod sch it ps (fs.write p.key (.conv "pdf" p.tex))
+        simpa only [passedOf_cons_prod] using this
+    · exact popReturned_prod sch it ps fs
+
+theorem pdfDrain_prod (sch : Sched) : ∀ (pool : List Proc) (fs : FS), passedOf (pdfDrain sch fs pool).1 = []
+  | [], fs => rfl
+  | p :: ps, fs => by
+    unfold pdfDrain
+    split
+    · exact pdfDrain_prod sch ps fs
+    · have := pdfDrain_prod sch ps (fs.write p.key (.conv "pdf" p.tex))
+      simpa only [passedOf_cons_prod] using this
+
+/-- a selected value is never yielded as it came -/
+theorem pdfStep_passed (ow : Bool) (sch : Sched) (st : PdfSt) (v : Item) :
+    passedOf (pdfStep ow sch st v).out = if pdfSel v then [] else [v] := by
+  have hpop := popReturned_prod sch st.iter st.pool st.fs
+  cases h : pdfSel v
+  · simp [pdfStep, h, passedOf_append, hpop, passedOf_pass]
+  · simp only [pdfStep, h, Bool.not_true, Bool.false_eq_true, if_false, if_true]
+    repeat' split
+    all_goals simp only [passedOf_append, hpop, passedOf_prod, List.append_nil]
+
+theorem pdf_loop_passed (ow : Bool) (sch : Sched) : ∀ (xs : List Item) (st : PdfSt),
+    passedOf (loop (pdfStep ow sch) st xs).blocks.flatten =
+      (xs.take (loop (pdfStep ow sch) st xs).blocks.length).filter (fun v => !pdfSel v)
+  | [], st => rfl
+  | v :: vs, st => by
+    have hv := pdfStep_passed ow sch st v
+    rcases hf : pdfStep ow sch st v with ⟨out, st', _ | e⟩
+    · rw [hf] at hv
+      have ih := pdf_loop_passed ow sch vs st'
+      simp only [loop, hf, List.flatten_cons, passedOf_append, List.length_cons, List.take_succ_cons,
+        List.filter_cons, ih]
+      simp only at hv
+      rw [hv]
+      cases pdfSel v <;> simp
+    · rw [hf] at hv
+      simp only at hv
+      simp only [loop, hf, List.flatten_cons, List.flatten_nil, List.append_nil, List.length_cons,
+        List.length_nil, List.take_succ_cons, List.take_zero, List.filter_cons, List.filter_nil, hv]
+      cases pdfSel v <;> simp
+
+theorem pdfRun_err (ow : Bool) (sch : Sched) (fs : FS) (xs : List Item) :
+    (pdfRun ow sch fs xs).err = (loop (pdfStep ow sch) ⟨fs, [], 0, 0⟩ xs).err := by
+  cases h : (loop (pdfStep ow sch) ⟨fs, [], 0, 0⟩ xs).err <;> simp [pdfRun, h]
+
+end
 
 end Lena.C10
